@@ -346,7 +346,7 @@ def _g_generalized_integrate_q_free():
   from brax.generalized import integrator
   from verif.contracts import physsys
   sys = physsys.load(physsys.xml_free())
-  return lambda q, qd: integrator._integrate_q_free(sys, q, qd)
+  return lambda q, qd: integrator._integrate_q_free(sys=sys, q=q, qd=qd)
 
 
 def _free_lemmas(A, p):
